@@ -154,3 +154,10 @@ reg("C19",
     rule="exhaustive: every history of the alphabet per (T,P); random: (T x P x dt x default|swept thresholds); distinct = distinct keys; every history with >= 1 non-empty partition is non-trivial",
     must_observe=["history_exhaustive", "history_random", "sites_independent", "ptm1_track", "history_long"],
     timeout={"quick": 900, "thorough": 14400})
+
+reg("C13",
+    technique="runtime reference-encoder monitor: files produced by independent encoders of each format (random contents, header variants, record order) are read by the real readers and compared with what the text says; 2-D vs 1-D consistency oracles",
+    level_text="TRIAXYS (directional / non-directional, several files), NDBC ASCII (realtime and history layouts, with/without minutes, five-file directional and single-file 1-D), Spotter CSV and JSON, Datawell SPT, Obscape CSV, WW3 station text, SWAN ASCII (LONLAT/LOCATIONS, AFREQ/RFREQ, NDIR/CDIR, VaDens/EnDens, FACTOR/ZERO/NODATA, with or without TIME, gzip) and XWaves .mat files are generated by encoders written from the format layouts; the real readers must return the encoded timestamps (sorted), frequencies, directions (as coming-from degrees), positions and densities (unit factors pi/180, rho g), and where a directional spectrum is built from moments it must integrate back to the file's frequency spectrum and the 1-D request must return that spectrum unchanged. Held = on the files observed.",
+    level_note="Trusted: vf/oracle/formats.py encoders (layouts checked against tests/sample_files headers; the truth is the parsed text, so precision is the file's). Instrument records are written in random order where the reader documents sorting; model files (SWAN, WW3 station) are chronological as the models write them. WW3-station files with several points are only checked up to coordinates (the reader's lat x lon grid layout of points is not asserted).",
+    rule="case = (format variant x options/sizes); distinct = distinct keys per oracle; every file holds random multi-lobe spectra",
+    must_observe=["triaxys", "ndbc", "ndbc_1d_unchanged", "integrates_to_1d:ndbc", "spotter", "1d_unchanged:spotter", "integrates_to_1d:spotter", "datawell", "integrates_to_1d:datawell", "obscape", "ww3_station", "swan", "xwaves"])
